@@ -119,7 +119,7 @@ def emit_sys(traces, out, monitors):
     out.write('Print NONTRIVIAL.\n')
 
 
-CASE_MODULES = {'route': 'Route', 'poll': 'Poll', 'kernel': 'Kernel', 'front': 'Valid', 'asserts': 'Valid', 'equiv': 'Equiv', 'render': 'Render', 'plug': 'Plug', 'commit': 'Commit', 'aio': 'Aio', 'loop': 'Loop'}
+CASE_MODULES = {'route': 'Route', 'poll': 'Poll', 'kernel': 'Kernel', 'front': 'Valid', 'asserts': 'Valid', 'equiv': 'Equiv', 'render': 'Render', 'plug': 'Plug', 'commit': 'Commit', 'aio': 'Aio', 'loop': 'Loop', 'handoff': 'Plug'}
 
 
 def emit_cases(fam, traces, out):
